@@ -252,6 +252,9 @@ RAISING = [
     ('script-raises-after-pkg_config', lambda s: s + "executable('late', ['extra.c'])\nraise ValueError('x')\n"),
     ('script-exits-nonzero', lambda s: s + "import sys\nsys.exit(3)\n"),
     ('script-syntax-error', lambda s: s + "def (:\n"),
+    # Python's usual "print a message and exit with status 1"
+    ('script-exits-with-message', lambda s: s + "import sys\nsys.exit('fatal: cannot configure this')\n"),
+    ('script-exits-with-message-early', lambda s: s.replace("prog = ", "exit('fatal: early')\nprog = ")),
 ]
 
 
